@@ -109,6 +109,9 @@ class Interp:
         self.decisions = []
         self.cursor = 0
         self.steps = 0
+        self.frame_cls = Frame
+        self.max_trips = 64
+        self.on_path_end = None     # callback(outcome) after each explored path
 
     # -------------------------------------------------------------- exploration
     def explore(self, fn, args, stop_on_ok=False):
@@ -127,12 +130,16 @@ class Interp:
             try:
                 self.call(fn, args, 0, {})
                 outcomes.add('ok')
+                if self.on_path_end:
+                    self.on_path_end('ok')
                 if stop_on_ok:
                     break
             except Throw as t:
                 outcomes.add('throw@' + t.where)
             except Budget:
                 outcomes.add('budget')
+                if self.on_path_end:
+                    self.on_path_end('budget')
             # backtrack
             while self.decisions and self.decisions[-1] is False:
                 self.decisions.pop()
@@ -160,7 +167,7 @@ class Interp:
             env[p['d']] = a
         for p in fn.params[len(args):]:
             env[p['d']] = UNK
-        fr = Frame(self, fn, env, this_env, depth)
+        fr = self.frame_cls(self, fn, env, this_env, depth)
         try:
             for it in fn.d.get('inits', []):
                 if it['init'] < 0:
@@ -208,7 +215,7 @@ class Frame:
         elif k == 'IfStmt':
             if n.get('init', -1) is not None and n.get('init', -1) >= 0:
                 self.ex(n['init'])
-            c = self.truth(self.ev(n['cond']))
+            c = self.truth_of(n['cond'])
             if c:
                 self.ex(n.get('then', -1))
             else:
@@ -229,7 +236,7 @@ class Frame:
                 if not c:
                     break
                 trips += 1
-                if trips > 64:
+                if trips > self.ip.max_trips:
                     self.havoc(n)
                     break
                 self.ex(n.get('body', -1))
@@ -280,6 +287,26 @@ class Frame:
         if isunk(v):
             return self.ip.choose()
         return bool(v)
+
+    def truth_of(self, cond):
+        """truth of condition node cond; an unknown boolean variable that is branched on keeps the chosen value
+        for the rest of the path (so that `utmp ? 2 : 0 ... if (utmp)` is one decision, not two)."""
+        v = self.ev(cond)
+        if not isunk(v):
+            return bool(v)
+        c = self.ip.choose()
+        f = self.fn
+        i = f.strip_casts(cond)
+        neg = False
+        n = f.nodes[i]
+        while n['k'] == 'UnaryOperator' and n.get('op') == '!' and n['ch']:
+            neg = not neg
+            i = f.strip_casts(n['ch'][0])
+            n = f.nodes[i]
+        if n['k'] == 'DeclRefExpr' and n.get('rk') in ('param', 'local') and \
+                n.get('t', '').replace('const ', '').strip() == 'bool':
+            self.env[n['d']] = (c != neg)
+        return c
 
     # -------------------------------------------------------------- lvalues
     def assign(self, nid, v):
@@ -373,8 +400,7 @@ class Frame:
         if k in ('BinaryOperator', 'CompoundAssignOperator'):
             return self.binop(n)
         if k == 'ConditionalOperator':
-            c = self.ev(n['cond'])
-            if self.truth(c):
+            if self.truth_of(n['cond']):
                 return self.ev(n['then'])
             return self.ev(n['else'])
         if k in ('CallExpr', 'CXXMemberCallExpr', 'CXXOperatorCallExpr'):
